@@ -255,9 +255,16 @@ def run(ctx):
             sim.spline_params(rng, min(rec_levels), max(rec_levels) + 1.0, n_sy=rng.randint(6, 9), oscillating=True),
             sim.peatclsm_params(rng, max(tr.level))))
         # a finely resolved profile: tens to more than a hundred knots (parameter numbers of two and three digits)
-        dataset_checks(ctx, tr, zstep, w, (
-            sim.spline_params(rng, min(tr.level), max(tr.level), n_sy=rng.choice([10, 12, 37, 101, 120]), n_t=rng.choice([10, 11, 25])),),
-            simulate=False)
+        many = sim.spline_params(rng, min(tr.level), max(tr.level), n_sy=rng.choice([10, 12, 37, 101, 120]), n_t=rng.choice([10, 11, 25]))
+        # a file the tool accepts: one more level knot than values (knots and values are paired, the unpaired knot is ignored);
+        # the number of parameters is the number of VALUES
+        uneven = sim.spline_params(rng, min(tr.level), max(tr.level))
+        which = rng.choice(["specific_yield", "transmissivity", "both"])
+        if which in ("specific_yield", "both"):
+            uneven["specific_yield"]["zeta_knots_mm"] = uneven["specific_yield"]["zeta_knots_mm"] + [float(uneven["specific_yield"]["zeta_knots_mm"][-1]) + 900.0]
+        if which in ("transmissivity", "both"):
+            uneven["transmissivity"]["zeta_knots_mm"] = uneven["transmissivity"]["zeta_knots_mm"] + [float(uneven["transmissivity"]["zeta_knots_mm"][-1]) + 900.0]
+        dataset_checks(ctx, tr, zstep, w, (many, uneven), simulate=False)
         P.cleanup(w)
     if n_done[0] == 0:
         ctx.corr_break("six generated PEST files = model (Model/Pest.lean) line by line",
